@@ -1,5 +1,6 @@
 import FV.Model.GlbOpt
 import FV.Proofs.Glb
+import Mathlib.Algebra.BigOperators.Ring.List
 /-
   Meaning of what `optimize_allocation` posts (`FV/Model/GlbOpt.lean`): an assignment that satisfies the generated bounds,
   constants and equations (inequalities within `tolI`, equalities within `tolE`) has the properties the C10 theorems
@@ -18,9 +19,9 @@ theorem lsum_eq (l : List α) : lsum l = l.sum := by
   | nil => simp [lsum]
   | cons x xs ih => simp [lsum, ih]
 
-/-- a row holds under `σ`: `<=` / `>=` within `tolI`, `==` within `tolE`; body-less rows say nothing. -/
+/-- a row holds under `σ`: `<=` / `>=` within `tolI`, `==` within `tolE`; objective terms are not constraints. -/
 def holds (σ : V → α) (tolI tolE : α) : Row α → Prop
-  | .stub _ _ => True
+  | .obj _ _ => True
   | .eqn _ l .le r => evalE σ l ≤ evalE σ r + tolI
   | .eqn _ l .ge r => evalE σ r ≤ evalE σ l + tolI
   | .eqn _ l .eq r => |evalE σ l - evalE σ r| ≤ tolE
@@ -110,7 +111,7 @@ theorem a_model_bounds (inp : Input α) (σ : V → α) (tolI tolE : α) (hs : S
   | none =>
     have hmem : (V.a mm.name c, some (Glb.zero : α), some (Glb.one : α)) ∈ (post inp).vars := by
       simp only [post, varsOf, List.mem_append, List.mem_flatMap, List.mem_filterMap]
-      left; right
+      left; left; right
       refine ⟨mm, hmm, c, (mem_cellIdx inp c).mpr hc, ?_⟩
       rw [hca]
     obtain ⟨h1, h2⟩ := hs.vars _ hmem
@@ -126,7 +127,7 @@ theorem movable_bounds (inp : Input α) (σ : V → α) (tolI tolE : α) (hs : S
       d ∈ (post inp).vars := by
     intro d hd
     simp only [post, varsOf, List.mem_append, List.mem_flatMap, List.mem_filter]
-    right
+    left; right
     exact ⟨m, ⟨hm, hmv⟩, List.mem_append.mp hd⟩
   refine ⟨fun c hc => ?_, ?_⟩
   · obtain ⟨h1, h2⟩ := hs.vars _ (hin (V.a m.name c, some Glb.zero, some Glb.one)
@@ -144,7 +145,7 @@ theorem model_centre_bounds (inp : Input α) (σ : V → α) (tolI tolE : α) (h
   have hin : ∀ d, d ∈ xyVars inp mm.name → d ∈ (post inp).vars := by
     intro d hd
     simp only [post, varsOf, List.mem_append, List.mem_flatMap]
-    left; left
+    left; left; left
     refine ⟨mm, hmm, ?_⟩
     simp only [hnf, Bool.false_eq_true, if_false, List.mem_append]
     exact Or.inl hd
@@ -267,5 +268,621 @@ theorem rows_of_sat (inp : Input α) (σ : V → α) (tolI tolE : α) (hs : Sat 
       linarith
     · have h2 : movable m = false := by simpa using hmv
       simp [h2]
+
+/-! ### meaning of the bodies of the area, centroid, dispersion and net rows -/
+
+theorem constA_mem_consts (inp : Input α) (mm : Module α) (hmm : mm ∈ modelModules inp.mods) (c : Nat)
+    (hc : c < inp.offered.length) (v : α) (hca : constA inp mm c = some v) : (V.a mm.name c, v) ∈ (post inp).consts := by
+  simp only [post, constsOf, List.mem_append, List.mem_flatMap, List.mem_filterMap, Option.map_eq_some_iff]
+  right
+  exact ⟨mm, hmm, c, (mem_cellIdx inp c).mpr hc, v, hca, rfl⟩
+
+/-- `k * model.a[mm][c]` (folded by Python when the ratio is a float) means `k · a[mm][c]`. -/
+theorem evalT_kaTerm (inp : Input α) (σ : V → α) (tolI tolE : α) (hs : Sat σ tolI tolE (post inp)) (k : α) (mm : Module α)
+    (hmm : mm ∈ modelModules inp.mods) (c : Nat) (hc : c < inp.offered.length) :
+    evalT σ (kaTerm inp k mm c) = k * σ (.a mm.name c) := by
+  unfold kaTerm
+  cases hca : constA inp mm c with
+  | none => rfl
+  | some v =>
+    simp only [evalT]
+    rw [hs.consts _ (constA_mem_consts inp mm hmm c hc v hca)]
+
+/-- `cells[c].area * model.a[mm][c] * D` means `area_c · a[mm][c] · D`. -/
+theorem evalT_dispTerm (inp : Input α) (σ : V → α) (tolI tolE : α) (hs : Sat σ tolI tolE (post inp)) (mm : Module α)
+    (hmm : mm ∈ modelModules inp.mods) (c : Nat) (hc : c < inp.offered.length) (D : X α) :
+    evalT σ (dispTerm inp mm c D) = cellArea inp c * σ (.a mm.name c) * evalX σ D := by
+  unfold dispTerm
+  cases hca : constA inp mm c with
+  | none => rfl
+  | some v =>
+    simp only [evalT, evalX]
+    rw [hs.consts _ (constA_mem_consts inp mm hmm c hc v hca)]
+
+theorem moduleRows_mem (inp : Input α) (m : Module α) (hm : m ∈ modelModules inp.mods) (r : Row α)
+    (hr : r ∈ moduleRows inp m) : r ∈ (post inp).rows := by
+  simp only [post, rowsOf, List.mem_append, List.mem_flatMap]
+  left; left; left; right
+  exact ⟨m, hm, hr⟩
+
+theorem hardRows_mem (inp : Input α) (m : Module α) (hm : m ∈ inp.mods) (hmv : movable m = true) (r : Row α)
+    (hr : r ∈ hardRows inp m) : r ∈ (post inp).rows := by
+  simp only [post, rowsOf, List.mem_append, List.mem_flatMap, List.mem_filter]
+  left; left; right
+  exact ⟨m, ⟨hm, hmv⟩, hr⟩
+
+theorem map_cellIdx_congr (inp : Input α) (f g : Nat → α) (h : ∀ c < inp.offered.length, f c = g c) :
+    (cellIdx inp).map f = (cellIdx inp).map g :=
+  List.map_congr_left fun c hc => h c ((mem_cellIdx inp c).mp hc)
+
+/-- the value of `model.x[m]` / `model.y[m]` of a model module at a point satisfying the constants. -/
+theorem x_of_model (inp : Input α) (σ : V → α) (tolI tolE : α) (hs : Sat σ tolI tolE (post inp)) (m : Module α)
+    (hm : m ∈ modelModules inp.mods) :
+    evalE σ (xRhs m) = σ (.x m.name) ∧ evalE σ (yRhs m) = σ (.y m.name) ∧
+    evalX σ (xX m) = σ (.x m.name) ∧ evalX σ (yX m) = σ (.y m.name) := by
+  unfold xRhs yRhs xX yX
+  by_cases hfx : m.fixed = true
+  · have hx : (V.x m.name, m.cx) ∈ (post inp).consts := by
+      simp only [post, constsOf, List.mem_append, List.mem_map, List.mem_filter]
+      left; left; exact ⟨m, ⟨hm, hfx⟩, rfl⟩
+    have hy : (V.y m.name, m.cy) ∈ (post inp).consts := by
+      simp only [post, constsOf, List.mem_append, List.mem_map, List.mem_filter]
+      left; right; exact ⟨m, ⟨hm, hfx⟩, rfl⟩
+    simp only [hfx, if_true, evalE, evalX]
+    exact ⟨(hs.consts _ hx).symm, (hs.consts _ hy).symm, (hs.consts _ hx).symm, (hs.consts _ hy).symm⟩
+  · simp [hfx, evalE, evalX]
+
+/-- **area row**: the area a model module is given over the offered cells is at least its own (within `tolI`). -/
+theorem area_row_meaning (inp : Input α) (σ : V → α) (tolI tolE : α) (hs : Sat σ tolI tolE (post inp)) (m : Module α)
+    (hm : m ∈ modelModules inp.mods) :
+    mmArea inp m ≤ ((cellIdx inp).map fun c => cellArea inp c * σ (.a m.name c)).sum + tolI := by
+  have hrow := hs.rows _ (moduleRows_mem inp m hm _ (by simp [moduleRows]; left; rfl))
+  simp only [holds, evalE, lsum_eq, List.map_map, Function.comp_def] at hrow
+  rw [map_cellIdx_congr inp _ (fun c => cellArea inp c * σ (.a m.name c))
+    (fun c hc => evalT_kaTerm inp σ tolI tolE hs _ m hm c hc)] at hrow
+  exact hrow
+
+/-- **centroid rows**: the centre variables (constants, for a fixed module) of a model module are the area-weighted
+    mean of the centres of the cells it is given, normalised by ITS OWN area (within `tolE`). -/
+theorem centroid_row_meaning (inp : Input α) (σ : V → α) (tolI tolE : α) (hs : Sat σ tolI tolE (post inp)) (m : Module α)
+    (hm : m ∈ modelModules inp.mods) :
+    |1 / mmArea inp m * ((cellIdx inp).map fun c => cellArea inp c * cellCx inp c * σ (.a m.name c)).sum
+        - σ (.x m.name)| ≤ tolE ∧
+    |1 / mmArea inp m * ((cellIdx inp).map fun c => cellArea inp c * cellCy inp c * σ (.a m.name c)).sum
+        - σ (.y m.name)| ≤ tolE := by
+  obtain ⟨hx, hy, _, _⟩ := x_of_model inp σ tolI tolE hs m hm
+  have hrx := hs.rows _ (moduleRows_mem inp m hm _ (by simp [moduleRows]; right; left; rfl))
+  have hry := hs.rows _ (moduleRows_mem inp m hm _ (by simp [moduleRows]; right; right; left; rfl))
+  simp only [holds] at hrx hry
+  rw [hx] at hrx
+  rw [hy] at hry
+  simp only [evalE, lsum_eq, List.map_map, Glb.one_eq, Function.comp_def] at hrx hry
+  rw [map_cellIdx_congr inp _ (fun c => cellArea inp c * cellCx inp c * σ (.a m.name c))
+    (fun c hc => evalT_kaTerm inp σ tolI tolE hs _ m hm c hc)] at hrx
+  rw [map_cellIdx_congr inp _ (fun c => cellArea inp c * cellCy inp c * σ (.a m.name c))
+    (fun c hc => evalT_kaTerm inp σ tolI tolE hs _ m hm c hc)] at hry
+  rw [one_div]
+  exact ⟨hrx, hry⟩
+
+/-- **dispersion row of a soft module**: `d[m]` is `6 / area^(3/2)` times the second moment of the area the module is
+    given about its centre (within `tolE`).  `powF` is Python's float power, uninterpreted. -/
+theorem softDisp_row_meaning (inp : Input α) (σ : V → α) (tolI tolE : α) (hs : Sat σ tolI tolE (post inp)) (m : Module α)
+    (hm : m ∈ modelModules inp.mods) (hh : m.hard = false) :
+    |6 / inp.powF (mmArea inp m) (3 / 2) * ((cellIdx inp).map fun c => cellArea inp c * σ (.a m.name c) *
+        ((σ (.x m.name) - cellCx inp c) ^ 2 + (σ (.y m.name) - cellCy inp c) ^ 2)).sum - σ (.d m.name)| ≤ tolE := by
+  obtain ⟨_, _, hx, hy⟩ := x_of_model inp σ tolI tolE hs m hm
+  have hrow := hs.rows _ (moduleRows_mem inp m hm (softDispRow inp m) (by simp [moduleRows, hh]))
+  simp only [softDispRow, holds, evalE, lsum_eq, List.map_map, Nat.cast_ofNat, Function.comp_def] at hrow
+  rw [map_cellIdx_congr inp _ (fun c => cellArea inp c * σ (.a m.name c) *
+      ((σ (.x m.name) - cellCx inp c) ^ 2 + (σ (.y m.name) - cellCy inp c) ^ 2)) ?_] at hrow
+  · exact hrow
+  · intro c hc
+    rw [evalT_dispTerm inp σ tolI tolE hs m hm c hc]
+    simp only [dispF, evalX, hx, hy, pow_two]
+
+theorem fake_mem_fakes (m : Module α) (i : Nat) (rect : Rect α) (hi : m.rects[i]? = some rect) :
+    fakeModule m i rect ∈ fakes m := by
+  unfold fakes
+  exact List.mem_map.mpr ⟨(rect, i), List.mem_zipIdx_iff_getElem?.mpr hi, rfl⟩
+
+/-- **dispersion row of rectangle `i` of a movable hard module**: `d[m_i]` is `12 / (w³ + h³)` times the second moment of
+    the area given to the rectangle about its centre, the offset along the SHORTER side stretched by the aspect ratio. -/
+theorem hardDisp_row_meaning (inp : Input α) (σ : V → α) (tolI tolE : α) (hs : Sat σ tolI tolE (post inp)) (m : Module α)
+    (hm : m ∈ inp.mods) (hmv : movable m = true) (i : Nat) (rect : Rect α) (hi : m.rects[i]? = some rect) :
+    |12 / (inp.powF rect.w 3 + inp.powF rect.h 3) * ((cellIdx inp).map fun c =>
+        cellArea inp c * σ (.a (subName m.name i) c) *
+          (if rect.w < rect.h then
+            (rect.h / rect.w * (σ (.x (subName m.name i)) - cellCx inp c)) ^ 2 + (σ (.y (subName m.name i)) - cellCy inp c) ^ 2
+          else
+            (σ (.x (subName m.name i)) - cellCx inp c) ^ 2 +
+              (rect.w / rect.h * (σ (.y (subName m.name i)) - cellCy inp c)) ^ 2)).sum
+      - σ (.d (subName m.name i))| ≤ tolE := by
+  have hf := mem_modelModules_fake inp.mods m _ hm hmv (fake_mem_fakes m i rect hi)
+  have hmem : hardDispRow inp m i rect ∈ hardRows inp m := by
+    simp only [hardRows, pairRows, List.mem_append, List.mem_flatMap]
+    right
+    exact ⟨(rect, i), List.mem_zipIdx_iff_getElem?.mpr hi, Or.inr (by simp)⟩
+  have hrow := hs.rows _ (hardRows_mem inp m hm hmv _ hmem)
+  simp only [hardDispRow, holds, evalE, lsum_eq, List.map_map, Nat.cast_ofNat, Function.comp_def] at hrow
+  rw [map_cellIdx_congr inp _ (fun c => cellArea inp c * σ (.a (subName m.name i) c) *
+      (if rect.w < rect.h then
+        (rect.h / rect.w * (σ (.x (subName m.name i)) - cellCx inp c)) ^ 2 + (σ (.y (subName m.name i)) - cellCy inp c) ^ 2
+      else
+        (σ (.x (subName m.name i)) - cellCx inp c) ^ 2 +
+          (rect.w / rect.h * (σ (.y (subName m.name i)) - cellCy inp c)) ^ 2)) ?_] at hrow
+  · exact hrow
+  · intro c hc
+    rw [evalT_dispTerm inp σ tolI tolE hs _ hf c hc]
+    by_cases hwh : rect.w < rect.h
+    · simp only [hwh, if_true, dispF, evalX, pow_two, fakeModule]
+    · simp only [hwh, if_false, dispF, evalX, pow_two, fakeModule]
+
+/-! ### nets -/
+
+/-- value of a pin of a net: the centre of a fixed module, otherwise the centre variable. -/
+def pinVx (σ : V → α) (inp : Input α) (p : String) : α :=
+  match pinFixed inp p with | some c => c.1 | none => σ (.x p)
+def pinVy (σ : V → α) (inp : Input α) (p : String) : α :=
+  match pinFixed inp p with | some c => c.2 | none => σ (.y p)
+
+theorem evalX_pinX (σ : V → α) (inp : Input α) (p : String) : evalX σ (pinX inp p) = pinVx σ inp p := by
+  unfold pinX pinVx; cases pinFixed inp p <;> rfl
+theorem evalX_pinY (σ : V → α) (inp : Input α) (p : String) : evalX σ (pinY inp p) = pinVy σ inp p := by
+  unfold pinY pinVy; cases pinFixed inp p <;> rfl
+
+theorem evalT_asT (σ : V → α) (x : X α) : evalT σ (asT x) = evalX σ x := by
+  cases x <;> rfl
+
+theorem edgeRows_mem (inp : Input α) (e : Nat) (w : α) (pins : List String) (he : inp.edges[e]? = some (w, pins))
+    (r : Row α) (hr : r ∈ edgeRows inp e w pins) : r ∈ (post inp).rows := by
+  simp only [post, rowsOf, List.mem_append, List.mem_flatMap]
+  left; right
+  exact ⟨((w, pins), e), List.mem_zipIdx_iff_getElem?.mpr he, hr⟩
+
+/-- **centre equations of a net with other than two pins**: `ex`, `ey` are the mean of the pins' centres. -/
+theorem hyper_row_meaning (inp : Input α) (σ : V → α) (tolI tolE : α) (hs : Sat σ tolI tolE (post inp)) (e : Nat) (w : α)
+    (pins : List String) (he : inp.edges[e]? = some (w, pins)) (h2 : pins.length ≠ 2) :
+    |(pins.map (pinVx σ inp)).sum / (pins.length : α) - σ (.ex e)| ≤ tolE ∧
+    |(pins.map (pinVy σ inp)).sum / (pins.length : α) - σ (.ey e)| ≤ tolE := by
+  have hrows : edgeRows inp e w pins =
+      [ .eqn s!"hx_{e}" (.sumDiv (pins.map fun p => asT (pinX inp p)) ((pins.length : Nat) : α)) .eq (.var (.ex e)),
+        .eqn s!"hy_{e}" (.sumDiv (pins.map fun p => asT (pinY inp p)) ((pins.length : Nat) : α)) .eq (.var (.ey e)) ] ++
+      pins.map fun p =>
+        .obj s!"net_{e}_{p}" (.gen (.mul (.num (inp.alpha * w))
+          (.add (.sq (.sub (.var (.ex e)) (pinX inp p))) (.sq (.sub (.var (.ey e)) (pinY inp p)))))) := by
+    unfold edgeRows
+    split
+    · simp at h2
+    · rfl
+  have hx := hs.rows _ (edgeRows_mem inp e w pins he _
+    (by rw [hrows]; exact List.mem_append_left _ List.mem_cons_self))
+  have hy := hs.rows _ (edgeRows_mem inp e w pins he _
+    (by rw [hrows]; exact List.mem_append_left _ (List.mem_cons_of_mem _ List.mem_cons_self)))
+  simp only [holds, evalE, lsum_eq, List.map_map, Function.comp_def, evalT_asT, evalX_pinX, evalX_pinY] at hx hy
+  exact ⟨hx, hy⟩
+
+/-! ### the objective -/
+
+def Row.isEqn : Row α → Bool
+  | .eqn .. => true
+  | .obj .. => false
+
+/-- the values of the `g.Minimize` terms among some rows. -/
+def objTerms (σ : V → α) (rows : List (Row α)) : List α :=
+  rows.filterMap fun r => match r with | .obj _ e => some (evalE σ e) | .eqn .. => none
+
+theorem objective_eq_sum (σ : V → α) (p : Posted α) : objective σ p = (objTerms σ p.rows).sum := by
+  simp only [objective, lsum_eq, objTerms]
+  congr 2
+
+theorem objTerms_append (σ : V → α) (a b : List (Row α)) : objTerms σ (a ++ b) = objTerms σ a ++ objTerms σ b := by
+  simp [objTerms, List.filterMap_append]
+
+theorem objTerms_of_eqns (σ : V → α) (l : List (Row α)) (h : ∀ r ∈ l, r.isEqn = true) : objTerms σ l = [] := by
+  unfold objTerms
+  rw [List.filterMap_eq_nil_iff]
+  intro r hr
+  have := h r hr
+  cases r with
+  | eqn => rfl
+  | obj => simp [Row.isEqn] at this
+
+theorem offsetRow_isEqn (name : String) (flip : Bool) (p q : V) (d : α) : (offsetRow name flip p q d).isEqn = true := by
+  unfold offsetRow; cases flip <;> rfl
+
+theorem capacityRows_isEqn (inp : Input α) : ∀ r ∈ capacityRows inp, r.isEqn = true := by
+  intro r hr
+  simp only [capacityRows, List.mem_map] at hr
+  obtain ⟨c, _, rfl⟩ := hr; rfl
+
+theorem moduleRows_isEqn (inp : Input α) (m : Module α) : ∀ r ∈ moduleRows inp m, r.isEqn = true := by
+  intro r hr
+  simp only [moduleRows, List.mem_append, List.mem_cons, List.not_mem_nil, or_false] at hr
+  rcases hr with (rfl | rfl | rfl) | hr
+  · rfl
+  · rfl
+  · rfl
+  · split at hr
+    · simp at hr
+    · simp only [List.mem_cons, List.not_mem_nil, or_false] at hr; subst hr; rfl
+
+theorem hardRows_isEqn (inp : Input α) (m : Module α) : ∀ r ∈ hardRows inp m, r.isEqn = true := by
+  intro r hr
+  simp only [hardRows, pairRows, List.mem_append, List.mem_cons, List.not_mem_nil, or_false, List.mem_map,
+    List.mem_flatMap] at hr
+  rcases hr with ((rfl | rfl) | ⟨c, _, rfl⟩) | ⟨⟨rect, i⟩, _, hr | hr⟩
+  · exact offsetRow_isEqn ..
+  · exact offsetRow_isEqn ..
+  · rfl
+  · obtain ⟨⟨rect', j⟩, _, hr⟩ := hr
+    split at hr
+    · simp only [List.mem_cons, List.not_mem_nil, or_false] at hr
+      rcases hr with rfl | rfl <;> exact offsetRow_isEqn ..
+    · simp at hr
+  · subst hr; rfl
+
+theorem objTerms_flatMap_eqns {β : Type} (σ : V → α) (l : List β) (f : β → List (Row α))
+    (h : ∀ x ∈ l, ∀ r ∈ f x, r.isEqn = true) : objTerms σ (l.flatMap f) = [] := by
+  apply objTerms_of_eqns
+  intro r hr
+  obtain ⟨x, hx, hrx⟩ := List.mem_flatMap.mp hr
+  exact h x hx r hrx
+
+theorem objTerms_flatMap_sum {β : Type} (σ : V → α) (l : List β) (f : β → List (Row α)) :
+    (objTerms σ (l.flatMap f)).sum = (l.map fun x => (objTerms σ (f x)).sum).sum := by
+  induction l with
+  | nil => simp [objTerms]
+  | cons x xs ih => rw [List.flatMap_cons, objTerms_append, List.sum_append, ih, List.map_cons, List.sum_cons]
+
+/-- length of a net at a point, as the objective counts it: half the squared distance of the two pins, or the sum of
+    the squared distances of the pins from the net's centre variables; times the weight. -/
+def edgeLen (σ : V → α) (inp : Input α) (e : Nat) (w : α) (pins : List String) : α :=
+  match pins with
+  | [p, q] => w * (((pinVx σ inp p - pinVx σ inp q) ^ 2 + (pinVy σ inp p - pinVy σ inp q) ^ 2) / 2)
+  | _ => w * (pins.map fun p => (σ (.ex e) - pinVx σ inp p) ^ 2 + (σ (.ey e) - pinVy σ inp p) ^ 2).sum
+
+/-- total wire length at a point (all nets, in order). -/
+def wireLength (σ : V → α) (inp : Input α) : α :=
+  (inp.edges.zipIdx.map fun x => edgeLen σ inp x.2 x.1.1 x.1.2).sum
+
+/-- total dispersion at a point: the sum of the dispersion variables. -/
+def totalDispersion (σ : V → α) (inp : Input α) : α := ((dVars inp).map σ).sum
+
+theorem evalE_twoPinTerm (σ : V → α) (inp : Input α) (w : α) (p q : String) :
+    evalE σ (twoPinTerm inp w p q) =
+      inp.alpha * (w * (((pinVx σ inp p - pinVx σ inp q) ^ 2 + (pinVy σ inp p - pinVy σ inp q) ^ 2) / 2)) := by
+  unfold twoPinTerm
+  split
+  · rename_i c0 c1 h0 h1
+    simp only [evalE, pinVx, pinVy, h0, h1, Nat.cast_ofNat]
+    ring
+  · simp only [evalE, evalX, evalX_pinX, evalX_pinY, Nat.cast_ofNat]
+    ring
+
+theorem objTerms_edgeRows (σ : V → α) (inp : Input α) (e : Nat) (w : α) (pins : List String) :
+    (objTerms σ (edgeRows inp e w pins)).sum = inp.alpha * edgeLen σ inp e w pins := by
+  unfold edgeRows edgeLen
+  split
+  · simp only [objTerms, List.filterMap_cons, List.filterMap_nil, List.sum_cons, List.sum_nil, add_zero]
+    exact evalE_twoPinTerm σ inp w _ _
+  · rename_i hne
+    have hsplit : ∀ (a b : Row α) (l : List (Row α)), a.isEqn = true → b.isEqn = true →
+        objTerms σ ([a, b] ++ l) = objTerms σ l := by
+      intro a b l ha hb
+      rw [objTerms_append, objTerms_of_eqns σ [a, b] (by intro r hr; simp at hr; rcases hr with rfl | rfl <;> assumption)]
+      rfl
+    split
+    · exact absurd rfl (hne _ _)
+    · rw [hsplit _ _ _ rfl rfl]
+      simp only [objTerms, List.filterMap_map, Function.comp_def, List.filterMap_some]
+      rw [← List.sum_map_mul_left, ← List.sum_map_mul_left]
+      congr 1
+      rw [List.filterMap_eq_map']
+      apply List.map_congr_left
+      intro p _
+      simp only [evalE, evalX, evalX_pinX, evalX_pinY]
+      ring
+
+theorem dispersion_term (σ : V → α) (inp : Input α) :
+    evalE σ (.scaled (Glb.one - inp.alpha) ((dVars inp).map fun v => T.var v)) = (1 - inp.alpha) * totalDispersion σ inp := by
+  simp only [evalE, lsum_eq, List.map_map, Function.comp_def, evalT, Glb.one_eq, totalDispersion]
+
+/-- **the objective**: what GEKKO is asked to minimise is `alpha · (total wire length) + (1 - alpha) · (total dispersion)`. -/
+theorem objective_eq (σ : V → α) (inp : Input α) :
+    objective σ (post inp) = inp.alpha * wireLength σ inp + (1 - inp.alpha) * totalDispersion σ inp := by
+  rw [objective_eq_sum]
+  simp only [post, rowsOf, objTerms_append, List.sum_append]
+  rw [objTerms_of_eqns σ _ (capacityRows_isEqn inp),
+    objTerms_flatMap_eqns σ _ _ (fun m _ => moduleRows_isEqn inp m),
+    objTerms_flatMap_eqns σ _ _ (fun m _ => hardRows_isEqn inp m),
+    objTerms_flatMap_sum]
+  simp only [List.sum_nil, zero_add, objTerms, List.filterMap_cons, List.filterMap_nil, List.sum_cons, add_zero]
+  rw [dispersion_term]
+  congr 1
+  unfold wireLength
+  rw [← List.sum_map_mul_left]
+  congr 1
+  apply List.map_congr_left
+  intro x _
+  exact objTerms_edgeRows σ inp x.2 x.1.1 x.1.2
+
+/-! ### the centroid rows are a weighted mean -/
+
+theorem weighted_sum_bounds {β : Type} (l : List β) (wt p : β → α) (lo hi : α) (hw : ∀ c ∈ l, 0 ≤ wt c)
+    (hp : ∀ c ∈ l, lo ≤ p c ∧ p c ≤ hi) :
+    lo * (l.map wt).sum ≤ (l.map fun c => wt c * p c).sum ∧ (l.map fun c => wt c * p c).sum ≤ hi * (l.map wt).sum := by
+  induction l with
+  | nil => simp
+  | cons c cs ih =>
+    obtain ⟨i1, i2⟩ := ih (fun x hx => hw x (by simp [hx])) (fun x hx => hp x (by simp [hx]))
+    have h0 := hw c (by simp)
+    obtain ⟨h1, h2⟩ := hp c (by simp)
+    simp only [List.map_cons, List.sum_cons]
+    constructor <;> nlinarith
+
+/-- the area given to a model module at a point. -/
+def givenArea (σ : V → α) (inp : Input α) (m : Module α) : α :=
+  ((cellIdx inp).map fun c => cellArea inp c * σ (.a m.name c)).sum
+
+/-- **the centre of a model module lies between the extreme cell centres, scaled by (given area)/(own area)**: from the
+    centroid rows, non-negative ratios and non-negative cell areas.  With the given area EQUAL to the module's area the
+    centre is a convex combination of the centres of the cells (`centroid_in_hull`). -/
+theorem centroid_between (inp : Input α) (σ : V → α) (tolI tolE : α) (hs : Sat σ tolI tolE (post inp)) (m : Module α)
+    (hm : m ∈ modelModules inp.mods) (hpos : 0 < mmArea inp m)
+    (hnn : ∀ c < inp.offered.length, 0 ≤ σ (.a m.name c)) (hA : ∀ c < inp.offered.length, 0 ≤ cellArea inp c)
+    (xlo xhi ylo yhi : α)
+    (hcx : ∀ c < inp.offered.length, xlo ≤ cellCx inp c ∧ cellCx inp c ≤ xhi)
+    (hcy : ∀ c < inp.offered.length, ylo ≤ cellCy inp c ∧ cellCy inp c ≤ yhi) :
+    xlo * (givenArea σ inp m / mmArea inp m) - tolE ≤ σ (.x m.name) ∧
+    σ (.x m.name) ≤ xhi * (givenArea σ inp m / mmArea inp m) + tolE ∧
+    ylo * (givenArea σ inp m / mmArea inp m) - tolE ≤ σ (.y m.name) ∧
+    σ (.y m.name) ≤ yhi * (givenArea σ inp m / mmArea inp m) + tolE := by
+  obtain ⟨hx, hy⟩ := centroid_row_meaning inp σ tolI tolE hs m hm
+  have hw : ∀ c ∈ cellIdx inp, 0 ≤ cellArea inp c * σ (.a m.name c) := fun c hc =>
+    mul_nonneg (hA c ((mem_cellIdx inp c).mp hc)) (hnn c ((mem_cellIdx inp c).mp hc))
+  obtain ⟨bx1, bx2⟩ := weighted_sum_bounds (cellIdx inp) (fun c => cellArea inp c * σ (.a m.name c)) (cellCx inp) xlo xhi hw
+    (fun c hc => hcx c ((mem_cellIdx inp c).mp hc))
+  obtain ⟨by1, by2⟩ := weighted_sum_bounds (cellIdx inp) (fun c => cellArea inp c * σ (.a m.name c)) (cellCy inp) ylo yhi hw
+    (fun c hc => hcy c ((mem_cellIdx inp c).mp hc))
+  have ex : (cellIdx inp).map (fun c => cellArea inp c * cellCx inp c * σ (.a m.name c)) =
+      (cellIdx inp).map (fun c => cellArea inp c * σ (.a m.name c) * cellCx inp c) :=
+    List.map_congr_left fun c _ => by ring
+  have ey : (cellIdx inp).map (fun c => cellArea inp c * cellCy inp c * σ (.a m.name c)) =
+      (cellIdx inp).map (fun c => cellArea inp c * σ (.a m.name c) * cellCy inp c) :=
+    List.map_congr_left fun c _ => by ring
+  rw [ex] at hx
+  rw [ey] at hy
+  have hx' := abs_le.mp hx
+  have hy' := abs_le.mp hy
+  have hinv : 0 < 1 / mmArea inp m := by positivity
+  unfold givenArea
+  have m1 := mul_le_mul_of_nonneg_left bx1 (le_of_lt hinv)
+  have m2 := mul_le_mul_of_nonneg_left bx2 (le_of_lt hinv)
+  have m3 := mul_le_mul_of_nonneg_left by1 (le_of_lt hinv)
+  have m4 := mul_le_mul_of_nonneg_left by2 (le_of_lt hinv)
+  have r1 : ∀ k S : α, k * (S / mmArea inp m) = 1 / mmArea inp m * (k * S) := fun k S => by ring
+  rw [r1, r1, r1, r1]
+  refine ⟨by linarith [hx'.1], by linarith [hx'.2], by linarith [hy'.1], by linarith [hy'.2]⟩
+
+/-- with exactly the module's area given, the centre is a convex combination of the cell centres. -/
+theorem centroid_in_hull (inp : Input α) (σ : V → α) (tolI tolE : α) (hs : Sat σ tolI tolE (post inp)) (m : Module α)
+    (hm : m ∈ modelModules inp.mods) (hpos : 0 < mmArea inp m) (hexact : givenArea σ inp m = mmArea inp m)
+    (hnn : ∀ c < inp.offered.length, 0 ≤ σ (.a m.name c)) (hA : ∀ c < inp.offered.length, 0 ≤ cellArea inp c)
+    (xlo xhi ylo yhi : α)
+    (hcx : ∀ c < inp.offered.length, xlo ≤ cellCx inp c ∧ cellCx inp c ≤ xhi)
+    (hcy : ∀ c < inp.offered.length, ylo ≤ cellCy inp c ∧ cellCy inp c ≤ yhi) :
+    xlo - tolE ≤ σ (.x m.name) ∧ σ (.x m.name) ≤ xhi + tolE ∧ ylo - tolE ≤ σ (.y m.name) ∧ σ (.y m.name) ≤ yhi + tolE := by
+  have h := centroid_between inp σ tolI tolE hs m hm hpos hnn hA xlo xhi ylo yhi hcx hcy
+  rw [hexact, div_self (ne_of_gt hpos)] at h
+  simpa using h
+
+/-! ### constants are read back by FRAME, not by the solver -/
+
+/-- `get_value` on the entries of `model.a / x / y`: an entry that is a float is itself, a `g.Var` is the solver's value. -/
+def readBack (p : Posted α) (σ : V → α) : V → α :=
+  fun v => match p.consts.lookup v with | some c => c | none => σ v
+
+/-- the keys of the dictionaries `model.x / y / a` are distinct: names of the model modules (soft, fixed, `m_r` of the
+    rectangles of movable hard modules) and of the movable hard modules.  (In Python a clash overwrites a dictionary entry;
+    GEKKO then refuses the duplicate variable name — the run raises.) -/
+def KeysDistinct (mods : List (Module α)) : Prop :=
+  ((modelModules mods).map (·.name) ++ (mods.filter movable).map (·.name)).Nodup
+
+def NamesOK (inp : Input α) : Prop := KeysDistinct inp.mods
+
+theorem lookup_of_functional {β γ : Type} [BEq β] [LawfulBEq β] (l : List (β × γ)) (k : β) (v : γ) (hmem : (k, v) ∈ l)
+    (hf : ∀ v', (k, v') ∈ l → v' = v) : l.lookup k = some v := by
+  induction l with
+  | nil => cases hmem
+  | cons x xs ih =>
+    obtain ⟨k', v'⟩ := x
+    by_cases hk : k = k'
+    · subst hk
+      simp only [List.lookup_cons_self]
+      rw [hf v' (by simp)]
+    · have hne : (k == k') = false := by simpa using hk
+      simp only [List.lookup_cons, hne]
+      refine ih ?_ (fun w hw => hf w (by simp [hw]))
+      rcases List.mem_cons.mp hmem with h | h
+      · exact absurd (Prod.mk.inj h).1 hk
+      · exact h
+
+theorem lookup_none_of_not_key {β γ : Type} [BEq β] [LawfulBEq β] (l : List (β × γ)) (k : β)
+    (h : ∀ v, (k, v) ∉ l) : l.lookup k = none := by
+  induction l with
+  | nil => rfl
+  | cons x xs ih =>
+    obtain ⟨k', v'⟩ := x
+    have hk : k ≠ k' := fun e => h v' (by simp [e])
+    have hne : (k == k') = false := by simpa using hk
+    simp only [List.lookup_cons, hne]
+    exact ih fun v hv => h v (by simp [hv])
+
+theorem name_inj_model (inp : Input α) (hn : NamesOK inp) (m m' : Module α) (hm : m ∈ modelModules inp.mods)
+    (hm' : m' ∈ modelModules inp.mods) (he : m.name = m'.name) : m = m' := by
+  have hnd : ((modelModules inp.mods).map (·.name)).Nodup := (List.nodup_append.mp hn).1
+  exact List.inj_on_of_nodup_map hnd hm hm' he
+
+/-- membership in the constants table. -/
+theorem mem_consts_iff (inp : Input α) (v : V) (c : α) : (v, c) ∈ (post inp).consts ↔
+    (∃ m ∈ modelModules inp.mods, m.fixed = true ∧ v = .x m.name ∧ c = m.cx) ∨
+    (∃ m ∈ modelModules inp.mods, m.fixed = true ∧ v = .y m.name ∧ c = m.cy) ∨
+    (∃ m ∈ modelModules inp.mods, ∃ k, k < inp.offered.length ∧ constA inp m k = some c ∧ v = .a m.name k) := by
+  simp only [post, constsOf, List.mem_append, List.mem_map, List.mem_filter, List.mem_flatMap, List.mem_filterMap,
+    Option.map_eq_some_iff, Prod.mk.injEq, mem_cellIdx, or_assoc]
+  constructor
+  · rintro (⟨m, ⟨hm, hf⟩, h1, h2⟩ | ⟨m, ⟨hm, hf⟩, h1, h2⟩ | ⟨m, hm, k, hk, w, hw, h1, h2⟩)
+    · exact Or.inl ⟨m, hm, hf, h1.symm, h2.symm⟩
+    · exact Or.inr (Or.inl ⟨m, hm, hf, h1.symm, h2.symm⟩)
+    · exact Or.inr (Or.inr ⟨m, hm, k, hk, by rw [hw, h2], h1.symm⟩)
+  · rintro (⟨m, hm, hf, rfl, rfl⟩ | ⟨m, hm, hf, rfl, rfl⟩ | ⟨m, hm, k, hk, hc, rfl⟩)
+    · exact Or.inl ⟨m, ⟨hm, hf⟩, rfl, rfl⟩
+    · exact Or.inr (Or.inl ⟨m, ⟨hm, hf⟩, rfl, rfl⟩)
+    · exact Or.inr (Or.inr ⟨m, hm, k, hk, c, hc, rfl, rfl⟩)
+
+/-- with distinct names the constants table is a function: looking a constant up gives its value. -/
+theorem consts_lookup (inp : Input α) (hn : NamesOK inp) (v : V) (c : α) (h : (v, c) ∈ (post inp).consts) :
+    (post inp).consts.lookup v = some c := by
+  apply lookup_of_functional _ _ _ h
+  intro c' h'
+  rcases (mem_consts_iff inp v c).mp h with ⟨m, hm, _, rfl, rfl⟩ | ⟨m, hm, _, rfl, rfl⟩ | ⟨m, hm, k, _, hc, rfl⟩
+  · rcases (mem_consts_iff inp _ c').mp h' with ⟨m', hm', _, e, rfl⟩ | ⟨m', _, _, e, _⟩ | ⟨m', _, k, _, _, e⟩
+    · rw [name_inj_model inp hn m m' hm hm' (V.x.inj e)]
+    · cases e
+    · cases e
+  · rcases (mem_consts_iff inp _ c').mp h' with ⟨m', _, _, e, _⟩ | ⟨m', hm', _, e, rfl⟩ | ⟨m', _, k, _, _, e⟩
+    · cases e
+    · rw [name_inj_model inp hn m m' hm hm' (V.y.inj e)]
+    · cases e
+  · rcases (mem_consts_iff inp _ c').mp h' with ⟨m', _, _, e, _⟩ | ⟨m', _, _, e, _⟩ | ⟨m', hm', k', _, hc', e⟩
+    · cases e
+    · cases e
+    · obtain ⟨e1, e2⟩ := V.a.inj e
+      have := name_inj_model inp hn m m' hm hm' e1
+      subst this; subst e2
+      rw [hc] at hc'; exact (Option.some.inj hc').symm
+
+theorem names_disjoint (inp : Input α) (hn : NamesOK inp) (mm m : Module α) (hmm : mm ∈ modelModules inp.mods)
+    (hm : m ∈ inp.mods) (hmv : movable m = true) : mm.name ≠ m.name := by
+  intro e
+  have hd := (List.nodup_append.mp hn).2.2
+  exact hd mm.name (List.mem_map.mpr ⟨mm, hmm, rfl⟩) m.name (List.mem_map.mpr ⟨m, List.mem_filter.mpr ⟨hm, hmv⟩, rfl⟩) e
+
+/-- no declared variable is also a constant of the table. -/
+theorem vars_not_const (inp : Input α) (hn : NamesOK inp) (d : V × Option α × Option α) (hd : d ∈ (post inp).vars) (c : α) :
+    (d.1, c) ∉ (post inp).consts := by
+  intro hc
+  simp only [post, varsOf, List.mem_append, List.mem_flatMap, List.mem_filterMap, List.mem_filter, List.mem_map,
+    mem_cellIdx] at hd
+  rcases hd with ((⟨mm, hmm, hd⟩ | ⟨mm, hmm, k, hk, hd⟩) | ⟨m, ⟨hm, hmv⟩, hd⟩) | ⟨⟨ed, e⟩, _, hd⟩
+  · split at hd
+    · cases hd
+    · rename_i hnf
+      simp only [xyVars, List.mem_append, List.mem_cons, List.not_mem_nil, or_false] at hd
+      rcases hd with (rfl | rfl) | rfl
+      · rcases (mem_consts_iff inp _ c).mp hc with ⟨m', hm', hf, e, _⟩ | ⟨m', _, _, e, _⟩ | ⟨m', _, k, _, _, e⟩
+        · rw [name_inj_model inp hn mm m' hmm hm' (V.x.inj e)] at hnf; exact hnf hf
+        · cases e
+        · cases e
+      · rcases (mem_consts_iff inp _ c).mp hc with ⟨m', _, _, e, _⟩ | ⟨m', hm', hf, e, _⟩ | ⟨m', _, k, _, _, e⟩
+        · cases e
+        · rw [name_inj_model inp hn mm m' hmm hm' (V.y.inj e)] at hnf; exact hnf hf
+        · cases e
+      · rcases (mem_consts_iff inp _ c).mp hc with ⟨m', _, _, e, _⟩ | ⟨m', _, _, e, _⟩ | ⟨m', _, k, _, _, e⟩ <;> cases e
+  · cases hca : constA inp mm k with
+    | some w => rw [hca] at hd; cases hd
+    | none =>
+      rw [hca] at hd
+      simp only [Option.some.injEq] at hd
+      subst hd
+      rcases (mem_consts_iff inp _ c).mp hc with ⟨m', _, _, e, _⟩ | ⟨m', _, _, e, _⟩ | ⟨m', hm', k', _, hc', e⟩
+      · cases e
+      · cases e
+      · obtain ⟨e1, e2⟩ := V.a.inj e
+        have := name_inj_model inp hn mm m' hmm hm' e1
+        subst this; subst e2
+        rw [hca] at hc'; cases hc'
+  · simp only [xyVars, List.mem_append, List.mem_cons, List.not_mem_nil, or_false, List.mem_map, mem_cellIdx] at hd
+    rcases hd with (rfl | rfl) | ⟨k, _, rfl⟩
+    · rcases (mem_consts_iff inp _ c).mp hc with ⟨m', hm', _, e, _⟩ | ⟨m', _, _, e, _⟩ | ⟨m', _, k, _, _, e⟩
+      · exact names_disjoint inp hn m' m hm' hm hmv (V.x.inj e).symm
+      · cases e
+      · cases e
+    · rcases (mem_consts_iff inp _ c).mp hc with ⟨m', _, _, e, _⟩ | ⟨m', hm', _, e, _⟩ | ⟨m', _, k, _, _, e⟩
+      · cases e
+      · exact names_disjoint inp hn m' m hm' hm hmv (V.y.inj e).symm
+      · cases e
+    · rcases (mem_consts_iff inp _ c).mp hc with ⟨m', _, _, e, _⟩ | ⟨m', _, _, e, _⟩ | ⟨m', hm', k', _, _, e⟩
+      · cases e
+      · cases e
+      · exact names_disjoint inp hn m' m hm' hm hmv (V.a.inj e).1.symm
+  · split at hd
+    · cases hd
+    · simp only [List.mem_cons, List.not_mem_nil, or_false] at hd
+      rcases hd with rfl | rfl <;>
+        (rcases (mem_consts_iff inp _ c).mp hc with ⟨m', _, _, e, _⟩ | ⟨m', _, _, e, _⟩ | ⟨m', _, k, _, _, e⟩ <;> cases e)
+
+/-- WHAT IS ASKED OF THE SOLVER ALONE: its values `σ` of the declared VARIABLES respect their bounds, and every posted row
+    holds (within tolerance) once FRAME's constants are put back.  Nothing is asked about the constants. -/
+structure SatVars (σ : V → α) (tolI tolE : α) (p : Posted α) : Prop where
+  vars : ∀ d ∈ p.vars, (∀ lb, d.2.1 = some lb → lb ≤ σ d.1) ∧ (∀ ub, d.2.2 = some ub → σ d.1 ≤ ub)
+  rows : ∀ r ∈ p.rows, holds (readBack p σ) tolI tolE r
+
+/-- **the constants are FRAME's, not the solver's**: with distinct dictionary keys, a solver point that meets `SatVars`
+    gives, after the constants are read back (`get_value` of a float is the float), a point satisfying the whole posted
+    system `Sat` — the `consts` clause is discharged by construction. -/
+theorem sat_of_satVars (inp : Input α) (hn : NamesOK inp) (σ : V → α) (tolI tolE : α)
+    (h : SatVars σ tolI tolE (post inp)) : Sat (readBack (post inp) σ) tolI tolE (post inp) := by
+  refine ⟨fun d hd => ?_, fun d hd => ?_, h.rows⟩
+  · have : readBack (post inp) σ d.1 = σ d.1 := by
+      unfold readBack
+      rw [lookup_none_of_not_key _ _ (fun c => vars_not_const inp hn d hd c)]
+    rw [this]; exact h.vars d hd
+  · unfold readBack
+    rw [consts_lookup inp hn d.1 d.2 hd]
+
+/-! ### the dictionary keys do not change along the loop -/
+
+/-- what the keys depend on: name, flags, number of rectangles. -/
+def SameShape (m m' : Module α) : Prop :=
+  m'.name = m.name ∧ m'.hard = m.hard ∧ m'.fixed = m.fixed ∧ m'.rects.length = m.rects.length
+
+theorem modelModules_cons (m : Module α) (ms : List (Module α)) :
+    modelModules (m :: ms) =
+      (if (!m.hard || m.fixed) = true then [m] else m.rects.zipIdx.map fun (rect, r) => fakeModule m r rect) ++
+        modelModules ms := by
+  simp [modelModules, List.flatMap_cons]
+
+theorem names_one (m : Module α) :
+    ((if (!m.hard || m.fixed) = true then [m] else m.rects.zipIdx.map fun (rect, r) => fakeModule m r rect).map (·.name)) =
+      (if (!m.hard || m.fixed) = true then [m.name] else (List.range' 0 m.rects.length).map (subName m.name)) := by
+  split
+  · rfl
+  · rw [List.map_map, ← List.zipIdx_map_snd 0 m.rects, List.map_map]
+    apply List.map_congr_left
+    rintro ⟨rect, r⟩ _
+    rfl
+
+theorem model_names_congr (a b : List (Module α)) (h : List.Forall₂ SameShape a b) :
+    (modelModules a).map (·.name) = (modelModules b).map (·.name) ∧
+    (a.filter movable).map (·.name) = (b.filter movable).map (·.name) := by
+  induction h with
+  | nil => exact ⟨rfl, rfl⟩
+  | cons hm ht ih =>
+    rename_i m m' ms ms'
+    obtain ⟨hn, hh, hf, hl⟩ := hm
+    refine ⟨?_, ?_⟩
+    · rw [modelModules_cons, modelModules_cons, List.map_append, List.map_append, names_one, names_one, ih.1, hn, hh, hf, hl]
+    · have : movable m' = movable m := by unfold movable; rw [hh, hf]
+      simp only [List.filter_cons, this]
+      split
+      · simp only [List.map_cons, hn, ih.2]
+      · exact ih.2
+
+theorem keysDistinct_congr (a b : List (Module α)) (h : List.Forall₂ SameShape a b) (hn : KeysDistinct a) :
+    KeysDistinct b := by
+  unfold KeysDistinct at hn ⊢
+  obtain ⟨h1, h2⟩ := model_names_congr _ _ h
+  rw [← h1, ← h2]; exact hn
 
 end FV.GlbOpt
